@@ -1,4 +1,5 @@
 import Gearpy.Model.Gears
+import Gearpy.Proofs.Solver
 import Gearpy.Proofs.Units
 import Gearpy.Generated.Tables
 import Mathlib.Tactic.Positivity
@@ -22,7 +23,9 @@ Formulas (for every value of the parameters):
 * `flags_iff`: the three `…_is_computable` flags are true exactly when the gear's own data are
   present (`wormWheel_bending_iff`: for a mated worm wheel also the worm's reference diameter);
 * `contact_mate_error_iff`: asking for the contact stress raises `ValueError` exactly when the
-  gear is unmated or its mate lacks module or elastic modulus.
+  gear is unmated or its mate lacks module or elastic modulus;
+* `record_forces`, `gearForces_get`: in a simulation, at **every recorded instant of every history** the
+  recorded force and stresses are these functions of the torques recorded at that same instant.
 -/
 
 namespace Gearpy.C09
@@ -142,7 +145,65 @@ theorem contact_mate_error_iff (role : Option Role) (mm me : Bool) :
     contactMate role mm me = .error .valueE ↔ role = none ∨ mm = false ∨ me = false := by
   cases role <;> cases mm <;> cases me <;> simp [contactMate]
 
+/-! ### in simulation: the recorded force / stresses are functions of the torques recorded at the same instant -/
+
+/-- on every record of every history the force list is `gearForces` of *that record's* driving and load
+    torques, and the stress lists are `gearStresses` of that force list (no stale torque, no stale force) -/
+theorem record_forces (c : Cfg) (ops : List Op) (p v : Q) (s' : St) (he : exec c ops (St.init p v) = .ok s') :
+    ∀ r ∈ s'.recs, gearForces c.gears r.dtorque r.ltorque = .ok r.force ∧
+      gearStresses c.gears r.force = .ok (r.bending, r.contactSq) := by
+  intro r hr
+  have h := all_records_ok c ops _ s' (init_inv c p v) he r hr
+  exact ⟨h.forces, h.stresses⟩
+
+/-- element by element: a mated gear whose force is computable records `|T_ref| / (d/2) · k` -/
+theorem gearForces_get : ∀ (gs : List GearSim) (ds ls : List Q) (fs : List (Option Q)), gearForces gs ds ls = .ok fs →
+    ∀ (i : Nat) (g : GearSim) (d l : Q) (dia k : Q) (role : Role), gs[i]? = some g → ds[i]? = some d → ls[i]? = some l →
+      g.force = some (dia, k) → g.role = some role →
+      fs[i]? = some (some (qabs (match role with | .master => l | .slave => d) / (dia / 2) * k))
+  | g0 :: gs, d0 :: ds, l0 :: ls, fs, h, i, g, d, l, dia, k, role, hg, hd, hl, hf, hr => by
+    simp only [gearForces] at h
+    cases i with
+    | zero =>
+      simp only [List.getElem?_cons_zero, Option.some.injEq] at hg hd hl
+      subst hg hd hl
+      rw [hf] at h
+      simp only [hr, refTorque] at h
+      cases role <;> simp only at h <;>
+        (cases hrest : gearForces gs ds ls with
+         | error e => rw [hrest] at h; simp [Except.map] at h
+         | ok rest => rw [hrest] at h; simp only [Except.map, Except.ok.injEq] at h; rw [← h]; simp)
+    | succ j =>
+      simp only [List.getElem?_cons_succ] at hg hd hl
+      have ih := fun fs' hfs => gearForces_get gs ds ls fs' hfs j g d l dia k role hg hd hl hf hr
+      cases hf0 : g0.force with
+      | none =>
+        rw [hf0] at h
+        cases hrest : gearForces gs ds ls with
+        | error e => rw [hrest] at h; simp [Except.map] at h
+        | ok rest =>
+          rw [hrest] at h; simp only [Except.map, Except.ok.injEq] at h
+          rw [← h]; simpa using ih rest hrest
+      | some dk =>
+        obtain ⟨dia0, k0⟩ := dk
+        rw [hf0] at h
+        simp only at h
+        cases hrt : refTorque g0.role d0 l0 with
+        | error e => rw [hrt] at h; simp at h
+        | ok T0 =>
+          rw [hrt] at h; simp only at h
+          cases hrest : gearForces gs ds ls with
+          | error e => rw [hrest] at h; simp [Except.map] at h
+          | ok rest =>
+            rw [hrest] at h; simp only [Except.map, Except.ok.injEq] at h
+            rw [← h]; simpa using ih rest hrest
+  | [], _, _, _, _, i, g, _, _, _, _, _, hg, _, _, _, _ => by simp at hg
+  | _ :: _, [], _, _, _, i, _, d, _, _, _, _, _, hd, _, _, _ => by simp at hd
+  | _ :: _, _ :: _, [], _, _, i, _, _, l, _, _, _, _, _, hl, _, _ => by simp at hl
+
 /-! ### non-vacuity -/
+example : gearForces [{}, { role := some .slave, force := some (1/50, 1) }] [2, 3] [1, 1/2] = .ok [none, some 300] := by
+  decide +kernel
 example : interpClamp Gen.lewisTable 10 = (Gen.lewisTable.headD (0, 0)).2 := by decide +kernel
 example : lewisOk 31 = true := by decide +kernel
 
